@@ -131,6 +131,18 @@ def bounds(tier):
                       "terminal_penalty {False, True} over 3 fixed x 36 mobile peptides (+ nucleotides with NUC)",
             "combo": "mirror image + offset (64,-32,16) + noise + every partial mask on all 3-point sets and 3 listed "
                      "sets; NaN coordinate in the one atom the mask excludes (EITHER: exception or NaN stays local)",
+            "sizes": "6 sets x {superimpose, superimpose_without_outliers, rmsd, bool mask length, index mask} x fixed "
+                     "size {1,n,n+2} x second operand size {1,n-1,n,n+1,2n,3n}: unequal sizes = exception or any value, "
+                     "arguments untouched; equal sizes must work",
+            "ambient": "6 sets x {exact, noisy} x {np.errstate raise, ignore, print options, working directory}: "
+                       "bitwise the same results as under the default state, and again after the event is undone",
+            "boxed": "7 sets x {AtomArray, stack of 2} x box {none, 1.5/1.5, 1.5/40, none/0.75 A} on fixed/mobile: "
+                     "superimpose, superimpose_without_outliers, rmsd bitwise independent of the box",
+            "ties": "5 listed sets (n=5,6,6,6,7) x displacements +-1,+-3 x quantiles (0,q) with (n-1)q integer, "
+                    "threshold 0 (the threshold is one of the squared distances) x max_iterations {2,10} x "
+                    "min_anchors {1,3}",
+            "zeroscore": "all equally long peptide pairs ({A,G,S}^2..3, {A,G}^4) with a zero BLOSUM62 score on the diagonal x "
+                         "min_anchors {1,2,3} x max_iterations 1 (+ hetero tail on mobile); mobile with more chains",
             "derived": "13 kinds of library-made inputs (fitted, applied, translate/rotate/rotate_centered output, "
                        "strided / masked / index-reordered AtomArray, stack[i], stack[[2,1]], stack[:, :n], coord view) x "
                        "{superimpose, superimpose_without_outliers, apply+rmsd} x 6 sets",
@@ -646,7 +658,7 @@ def run_outlier_batch(ctx, desc, focus=None):
     fit_fixed, fit_mobile, fit_w, fit_fitted, fit_R, fit_ct, fit_tt, fit_mat, fit_call = ([] for _ in range(9))
     cls0 = "%s/%s" % ("stack2" if desc.get("stack") else "array", set_class(desc))
     for ci, (grp, (ma, mi, qi)) in enumerate(calls):
-        q, thr = QT[qi]
+        q, thr = ((0.0, qi[1]), 0.0) if isinstance(qi, list) else QT[qi]   # ["tie", q]: threshold = q-quantile itself
         mobile = mob[list(grp)] if len(grp) > 1 else mob[grp[0]]
         ccase = {**case, "focus": ci}
         ctx.ev(1, 1)
@@ -851,7 +863,7 @@ def run_homolog_case(ctx, case):
 
     fch, mch, ma = case["f"], case["m"], case["ma"]
     fixed = build_chains(fch, case.get("hetero", False), pos=case.get("fpos"))
-    base = build_chains(mch, pos=case.get("mpos"))
+    base = build_chains(mch, case.get("mhetero", False), pos=case.get("mpos"))
     geos = case["geo"] if isinstance(case["geo"], list) else [case["geo"]]
     mobs = [move(base, g) for g in geos]
     mobile = mobs[0] if not case.get("stack") else struc.stack(mobs)
@@ -864,8 +876,8 @@ def run_homolog_case(ctx, case):
     if case.get("hp") is not None:
         kw.update(homolog_extra_kwargs(case))
     types = "".join(sorted({chain_type(c) for c in fch + mch}))
-    cls = "%dchain/%s/%s%s" % (len(fch), types, "stack" if case.get("stack") else "array",
-                               "/hetero" if case.get("hetero") else "")
+    cls = "%dchain/%s/%s%s%s" % (len(fch), types, "stack" if case.get("stack") else "array",
+                                 "/hetero" if case.get("hetero") else "", "/mhetero" if case.get("mhetero") else "")
     ctx.ev(1, 1)
     ctx.count({"accept": "accepted", "either": "unspecified", "refuse": "refused"}[exp])
     ctx.count("ev_homolog_%dchain" % len(fch))
@@ -914,6 +926,27 @@ def run_homolog_case(ctx, case):
     if len(fi) < ma:
         ctx.violation("superimpose_homologs|fewer_than_min_anchors|" + cls, "fewer anchors than min_anchors",
                       case, expected=ma, observed=[fi, mi])
+    if case.get("mi") == 1 and case.get("hp") is None and len(fch) == 1 and len(mch) == 1 \
+            and len(fch[0]) == len(mch[0]) and set(fch[0] + mch[0]) <= set(PEP) and not case.get("stack"):
+        # documented: "Only aligned residues with a positive score are considered as initial anchors"; without
+        # outlier removal the result is those anchors, or all CA atoms if fewer than min_anchors were found.
+        # Decided only where the ungapped, unshifted alignment is provably the unique optimum.
+        L = len(fch[0])
+        sc = lambda a, b: BLOSUM62_AGS[tuple(sorted((a, b)))]  # noqa: E731
+        diag = [sc(a, b) for a, b in zip(fch[0], mch[0])]
+        shifts = [sum(sc(fch[0][i], mch[0][i + d]) for i in range(L) if 0 <= i + d < L) for d in range(-L + 1, L) if d]
+        if sum(diag) > max(shifts + [6 * (L - 1) - 10]):
+            pos = [k for k in range(L) if diag[k] > 0]
+            want = pos if len(pos) >= ma else list(range(L))
+            fa_l, mb_l = sorted(fa), sorted(mb)
+            got = sorted((fa_l.index(a), mb_l.index(b)) for a, b in zip(fi.tolist(), mi.tolist()))
+            if got != [(k, k) for k in want]:
+                ctx.violation("superimpose_homologs|zero_score_pair_handling|" + cls,
+                              "without outlier removal the anchors must be the aligned residues with a positive score "
+                              "(or all, if those are fewer than min_anchors)", case, expected=[(k, k) for k in want],
+                              observed=got)
+            else:
+                ctx.count("initial_anchor_rule_agreed")
     if not np.array_equal(mobile.coord, mkeep) or type(fitted) is not type(mobile) or fitted is mobile \
             or fitted.coord.shape != mobile.coord.shape:
         ctx.violation("superimpose_homologs|not_a_copy|" + cls, "fitted is not a fresh copy of mobile / mobile changed",
@@ -1077,7 +1110,7 @@ def shards(tier, seed):
     for c1 in perms:
         for c2 in perms:
             out.append({"kind": "homolog", "fam": "sub", "f": [c1, c2]})
-    out += [dict(x) for x in AUDIT_SHARDS] + [dict(x) for x in AUDIT2_SHARDS]
+    out += [dict(x) for x in AUDIT_SHARDS] + [dict(x) for x in AUDIT2_SHARDS] + [dict(x) for x in AUDIT3_SHARDS]
     # heavy first
     weight = {"fit": 0, "outlier": 1, "shape": 2, "homolog": 3, "audit": 4}
     out.sort(key=lambda s: (weight[s["kind"]], 0 if s.get("size") in (4, 5) else 1))
@@ -1189,6 +1222,8 @@ def _run_shard(shard, ctx):
         for c in homolog_cases(shard, ctx.tier):
             if ctx.journal(json.dumps(c)):
                 run_homolog_case(ctx, c)
+    elif k == "audit" and shard["fam"] in ("sizes", "ambient", "boxed", "ties", "zeroscore"):
+        run_audit3_shard(shard, ctx)
     elif k == "audit" and shard["fam"] in ("identity", "bparam", "combo", "derived"):
         run_audit2_shard(shard, ctx)
     elif k == "audit":
@@ -1228,6 +1263,12 @@ def replay(case, ctx):
         run_derived_case(ctx, case)
     elif k == "audit" and case.get("fam") == "ndim":
         run_ndim_case(ctx, case)
+    elif k == "audit" and case.get("fam") == "sizes":
+        run_sizes_case(ctx, case)
+    elif k == "audit" and case.get("fam") == "ambient":
+        run_ambient_case(ctx, case)
+    elif k == "audit" and case.get("fam") == "boxed":
+        run_boxed_case(ctx, case)
 
 
 def crash_class(case):
@@ -1949,3 +1990,255 @@ def run_audit2_shard(shard, ctx):
         for c in derived_cases():
             if ctx.journal(json.dumps(c)):
                 run_derived_case(ctx, c)
+
+
+# ===========================================================================
+# third dimension audit: operands of different size, ambient numpy/cwd state, a box stored in the
+# object, ties of the outlier / anchor selection - see notes/C16.md "Third dimension audit"
+# ===========================================================================
+BLOSUM62_AGS = {("ALA", "ALA"): 4, ("GLY", "GLY"): 6, ("SER", "SER"): 4, ("ALA", "SER"): 1, ("ALA", "GLY"): 0,
+                ("GLY", "SER"): 0}   # the six entries of the published matrix the synthetic residues can reach
+
+
+def run_sizes_case(ctx, case):
+    """Second operand larger / smaller than the first, or referring to atoms the first lacks.  No model value
+    exists (the docstring requires atom-wise correspondence), so: exception or any value, but the arguments
+    stay untouched, and equal sizes next to it must still work."""
+    import biotite.structure as struc
+
+    F = np.array(case["fixed"], dtype=np.float64)
+    n = len(F)
+    nf, nm = case["nf"], case["nm"]
+    big = np.concatenate([F, F[::-1] + 4.0, F + 9.0])
+    # float32, so that biotite works on these very buffers (coord() does not copy float32 arrays)
+    fx, mb = big[:nf].astype(np.float32), (big[:nm] @ sp.ROT24_F[8].T + 2.0).astype(np.float32)
+    what = case["what"]
+    if what in ("mask_len", "index"):
+        mb = fx + np.float32(1.0)
+    ctx.ev(1, 1)
+    ctx.count("ev_audit_sizes")
+    keep = (fx.copy(), mb.copy())
+    try:
+        if what == "coords":
+            struc.superimpose(fx, mb)
+        elif what == "outliers":
+            struc.superimpose_without_outliers(fx, mb, min_anchors=1)
+        elif what == "rmsd":
+            struc.rmsd(fx, mb)
+        elif what == "mask_len":     # mask for nm atoms on structures of nf atoms
+            struc.superimpose(fx, mb, atom_mask=np.ones(nm, dtype=bool))
+        else:                         # index mask pointing at atom nm-1
+            struc.superimpose(fx, mb, atom_mask=np.array([0, nm - 1]))
+        ctx.count("unspecified" if nf != nm else "accepted")
+        ctx.outcome(("sizes", what, nf, nm, "returned"))
+    except Exception as e:  # noqa: BLE001
+        ctx.outcome(("sizes", what, nf, nm, type(e).__name__))
+        if nf == nm or (what == "index" and nm <= nf):
+            ctx.violation("sizes|raises_%s|%s/equal" % (type(e).__name__, what), "operands of equal size raised: %s" % e,
+                          case, observed=repr(e)[:300])
+        else:
+            ctx.count("refused")
+    if not (np.array_equal(fx, keep[0]) and np.array_equal(mb, keep[1])):
+        ctx.violation("sizes|input_mutated|%s/%s" % (what, "equal" if nf == nm else "unequal"),
+                      "a call with operands of %s size modified its arguments" % ("equal" if nf == nm else "different"),
+                      case)
+
+
+def sizes_cases():
+    for F in audit_sets():
+        n = len(F)
+        for what in ("coords", "outliers", "rmsd", "mask_len", "index"):
+            for nf in sorted({1, n, n + 2}):
+                for nm in sorted({1, n - 1, n, n + 1, 2 * n, 3 * n} - {0}):
+                    yield {"kind": "audit", "fam": "sizes", "fixed": F, "what": what, "nf": nf, "nm": nm}
+
+
+# --- ambient state as an event: numpy error state, print options, working directory ---------------
+AMBIENT = ["err_raise", "err_ignore", "printopts", "cwd"]
+
+
+def run_ambient_case(ctx, case):
+    import os
+    import tempfile
+
+    import biotite.structure as struc
+
+    F = np.array(case["fixed"], dtype=np.float64)
+    n = len(F)
+    d = {"fixed": case["fixed"], "trans": TRANS_PALETTES[0], "mags": [0.25, 1.0], "var": case["var"]}
+    _, mmods = shape_models(d)
+    mob = np.stack(mmods[:2]).astype(np.float32)
+    ctx.ev(1, 1 if n >= 2 else 0)
+    ctx.count("accepted")
+    ctx.count("ev_audit_ambient")
+
+    def ops():
+        f, t = struc.superimpose(F, mob)
+        o = struc.superimpose_without_outliers(F, mob, min_anchors=1)
+        r = struc.rmsd(F, f)
+        return [np.array(f), np.array(t.rotation), np.array(t.as_matrix()), np.array(t.apply(PROBE[None].repeat(2, 0))),
+                np.array(o[0]), np.array(o[2]), np.array(r)]
+
+    base = ops()
+    ev = case["event"]
+    cwd, popts = os.getcwd(), np.get_printoptions()
+    try:
+        if ev == "err_raise":
+            with np.errstate(all="raise"):
+                got = ops()
+        elif ev == "err_ignore":
+            with np.errstate(all="ignore"):
+                got = ops()
+        elif ev == "printopts":
+            np.set_printoptions(precision=1, suppress=True, threshold=3)
+            got = ops()
+        else:
+            with tempfile.TemporaryDirectory(dir=str(loader_build())) as td:
+                os.chdir(td)
+                got = ops()
+                os.chdir(cwd)
+    except Exception as e:  # noqa: BLE001
+        ctx.violation("ambient|raises_%s|%s" % (type(e).__name__, ev),
+                      "a legal call raised only because of the ambient %s state: %s" % (ev, e), case,
+                      observed=repr(e)[:300])
+        return
+    finally:
+        os.chdir(cwd)
+        np.set_printoptions(**popts)
+    if not all(x.shape == y.shape and np.array_equal(x, y) for x, y in zip(base, got)):
+        ctx.violation("ambient|result_depends_on|" + ev, "results differ from those under the default ambient state",
+                      case)
+    again = ops()
+    if not all(np.array_equal(x, y) for x, y in zip(base, again)):
+        ctx.violation("ambient|state_left_behind|" + ev, "results after the event was undone differ", case)
+    ctx.outcome(("ambient", ev, n, case["var"]))
+
+
+def loader_build():
+    from mc import loader
+
+    return loader.BUILD
+
+
+def ambient_cases():
+    for F in audit_sets():
+        for var in ("exact", "noisy"):
+            for ev in AMBIENT:
+                yield {"kind": "audit", "fam": "ambient", "fixed": F, "var": var, "event": ev}
+
+
+# --- a box stored in the object: no function of this property takes or documents periodicity --------
+def run_boxed_case(ctx, case):
+    import biotite.structure as struc
+
+    F = np.array(case["fixed"], dtype=np.float64)
+    n = len(F)
+    d = {"fixed": case["fixed"], "trans": TRANS_PALETTES[0], "mags": [0.25, 1.0], "var": "noisy"}
+    _, mmods = shape_models(d)
+    depth = case["depth"]
+    ctx.ev(1, 1 if n >= 2 else 0)
+    ctx.count("accepted")
+    ctx.count("ev_audit_boxed")
+
+    def mk(models, box):
+        a = _rich_array(models if depth else models[0], depth)
+        if box is None:
+            a.box = None
+        elif depth:
+            a.box = np.stack([np.eye(3, dtype=np.float32) * box] * depth)
+        else:
+            a.box = np.eye(3, dtype=np.float32) * box
+        return a
+
+    res = []
+    try:
+        for fbox, mbox in ((None, None), (1.5, 1.5), (1.5, 40.0), (None, 0.75)):
+            fx = mk([F, F], fbox) if depth == 0 else mk([F, F + 0.0], fbox)[0]
+            mb = mk(mmods, mbox)
+            f, t = struc.superimpose(fx, mb)
+            o = struc.superimpose_without_outliers(fx, mb, min_anchors=1)
+            r = struc.rmsd(fx, f)
+            res.append([f.coord.copy(), np.array(t.as_matrix()), o[0].coord.copy(), np.array(o[2]), np.array(r)])
+            fb = None if mbox is None else mb.box
+            if (f.box is None) != (fb is None) or (fb is not None and not np.array_equal(f.box, fb)):
+                ctx.violation("boxed|box_not_copied|depth%d" % depth, "fitted does not carry the mobile's box", case)
+    except Exception as e:  # noqa: BLE001
+        ctx.violation("boxed|raises_%s|depth%d" % (type(e).__name__, depth), "structures with a box raised: %s" % e,
+                      case, observed=repr(e)[:300])
+        return
+    for k in range(1, len(res)):
+        if not all(np.array_equal(x, y) for x, y in zip(res[0], res[k])):
+            ctx.violation("boxed|result_depends_on_box|depth%d" % depth,
+                          "superimpose / superimpose_without_outliers / rmsd give another result when the structures "
+                          "carry a (small) box; none of them documents periodicity", case)
+            break
+    ctx.outcome(("boxed", depth, n))
+
+
+def boxed_cases():
+    for F in audit_sets() + [[list(map(float, p)) for p in BIG_SETS["cube8"]]]:
+        for depth in (0, 2):
+            yield {"kind": "audit", "fam": "boxed", "fixed": F, "depth": depth}
+
+
+# --- ties of the outlier criterion: the threshold is exactly one of the squared distances --------------
+def tie_descs():
+    sets = {k: [list(map(float, p)) for p in BIG_SETS[k]] for k in ("line5", "plane6", "helix6", "mirror6", "generic7")}
+    qs = {5: [0.0, 0.25, 0.5, 0.75, 1.0], 6: [0.0, 0.2, 0.4, 0.6, 0.8, 1.0], 7: [0.0, 0.5, 1.0]}
+    for name, F in sets.items():
+        n = len(F)
+        prm = []
+        for q in qs[n]:
+            for mi in (2, 10):
+                for ma in (1, 3):
+                    prm.append([ma, mi, ["tie", q]])
+        yield {"kind": "outlier", "fixed": F, "trans": [[0.0, 0.0, 0.0], [-3.0, 7.0, 1.0]], "mags": [1.0, 3.0],
+               "base_noise": [n - 1, 1, 0.375], "rots": [], "motions": [[8, 1]], "params": prm, "stack": False}
+
+
+AUDIT3_SHARDS = [{"kind": "audit", "fam": f} for f in ("sizes", "ambient", "boxed", "ties", "zeroscore")]
+
+
+def zeroscore_cases():
+    seqs = [list(s) for k in (2, 3) for s in itertools.product(("ALA", "GLY", "SER"), repeat=k)]
+    seqs += [list(s) for s in itertools.product(("ALA", "GLY"), repeat=4)]
+    for f in seqs:
+        for m in seqs:
+            if len(f) != len(m):
+                continue
+            sc = [BLOSUM62_AGS[tuple(sorted((a, b)))] for a, b in zip(f, m)]
+            if 0 not in sc:
+                continue
+            for ma in (1, 2, 3):
+                yield {"kind": "homolog", "f": [f], "m": [m], "geo": 0, "ma": ma, "mi": 1}
+                yield {"kind": "homolog", "f": [f], "m": [m], "geo": 0, "ma": ma, "mi": 1, "mhetero": True}
+
+
+def run_audit3_shard(shard, ctx):
+    fam = shard["fam"]
+    if fam == "sizes":
+        for c in sizes_cases():
+            if ctx.journal(json.dumps(c)):
+                run_sizes_case(ctx, c)
+    elif fam == "ambient":
+        for c in ambient_cases():
+            if ctx.journal(json.dumps(c)):
+                run_ambient_case(ctx, c)
+    elif fam == "boxed":
+        for c in boxed_cases():
+            if ctx.journal(json.dumps(c)):
+                run_boxed_case(ctx, c)
+    elif fam == "ties":
+        for d in tie_descs():
+            run_outlier_batch(ctx, d)
+    elif fam == "zeroscore":
+        from mc import ccd
+
+        ccd.install_ccd()
+        for c in zeroscore_cases():
+            if ctx.journal(json.dumps(c)):
+                run_homolog_case(ctx, c)
+        # more chains in mobile than in fixed (the reverse direction of the existing chain-count case)
+        for c in ({"kind": "homolog", "f": [["ALA", "GLY", "SER", "ALA"]], "m": [["ALA", "GLY"], ["SER", "ALA"]],
+                   "geo": 1, "ma": 2, "mi": None},):
+            run_homolog_case(ctx, c)
